@@ -90,6 +90,29 @@ func loadEngine(repo string, patterns []string) (*engine, error) {
 		}
 		e.allFuncs[f.Pkg.Pkg.Path()+"."+funcKey(f)] = f
 	}
+	// methods that are never called are not in AllFunctions: add them through the method sets
+	for _, sp := range e.spkgs {
+		if !strings.HasPrefix(sp.Pkg.Path(), modPrefix) {
+			continue
+		}
+		for _, mem := range sp.Members {
+			tn, ok := mem.(*ssa.Type)
+			if !ok {
+				continue
+			}
+			for _, t := range []types.Type{tn.Type(), types.NewPointer(tn.Type())} {
+				ms := prog.MethodSets.MethodSet(t)
+				for i := 0; i < ms.Len(); i++ {
+					if f := prog.MethodValue(ms.At(i)); f != nil && f.Pkg != nil && f.Synthetic == "" {
+						k := f.Pkg.Pkg.Path() + "." + funcKey(f)
+						if _, ok := e.allFuncs[k]; !ok {
+							e.allFuncs[k] = f
+						}
+					}
+				}
+			}
+		}
+	}
 	e.findSeams()
 	return e, nil
 }
